@@ -1732,6 +1732,22 @@ def subst_single_use(stmts):
     def stores(name):
         return sum(1 for s in stmts for n in ast.walk(s) if isinstance(n, ast.Name) and n.id == name and isinstance(n.ctx, ast.Store))
 
+    def paired(name):
+        """the same temporary name used in several arms: every store of it is a plain assignment whose next statement holds its one
+        read, and there are no other reads (so each read sees the assignment just before it)"""
+        ok, n_st = [True], [0]
+
+        def scan(block):
+            for j, s_ in enumerate(block):
+                t_ = s_.targets[0] if isinstance(s_, ast.Assign) and len(s_.targets) == 1 else None
+                if isinstance(t_, ast.Name) and t_.id == name:
+                    n_st[0] += 1
+                    if j + 1 >= len(block) or _reads([block[j + 1]], name) != 1 or not _reads_at_top(block[j + 1], name) or _reads([s_], name):
+                        ok[0] = False
+                _recurse_blocks(s_, lambda b_: (scan(b_), b_)[1])
+        scan(stmts)
+        return ok[0] and n_st[0] >= 1 and whole_reads(name) == n_st[0] and stores(name) == n_st[0]
+
     def rec(block):
         block = list(block)
         i = 0
@@ -1740,7 +1756,8 @@ def subst_single_use(stmts):
             s = block[i]
             if i + 1 < len(block) and isinstance(s, (ast.Assign, ast.AnnAssign)) and s.value is not None:
                 t = s.targets[0] if isinstance(s, ast.Assign) and len(s.targets) == 1 else (s.target if isinstance(s, ast.AnnAssign) else None)
-                if isinstance(t, ast.Name) and whole_reads(t.id) == 1 and stores(t.id) == 1 and not is_pure_ext(s.value):
+                if isinstance(t, ast.Name) and not is_pure_ext(s.value) and (
+                        (whole_reads(t.id) == 1 and stores(t.id) == 1) or (_reads([block[i + 1]], t.id) == 1 and paired(t.id))):
                     nxt = block[i + 1]
                     if _reads_at_top(nxt, t.id):
                         block[i + 1] = norm._Subst({t.id: s.value}).visit(nxt)
@@ -3307,6 +3324,140 @@ class Canon:
             return None
         return None
 
+    def _ctor_defaults(self, call: ast.Call, module):
+        """{field: text of its default} for a call of a dataclass (no __init__/__post_init__ of its own) of the program; fresh empty
+        containers for default_factory=list/dict/set"""
+        from .model import Class
+        try:
+            r = module.resolve(call.func) if isinstance(call.func, (ast.Name, ast.Attribute)) else None
+        except Exception:
+            r = None
+        if not isinstance(r, Class) or not r.is_dataclass or any(k_.methods.get(n_) for k_ in r.mro for n_ in ("__init__", "__post_init__", "__new__")):
+            return {}
+        out = {}
+        for f in r.all_fields():
+            if f.classvar or not f.init:
+                continue
+            if f.default_factory is not None and u(f.default_factory) in ("list", "dict", "set"):
+                out[f.name] = {"list": "[]", "dict": "{}", "set": "set()"}[u(f.default_factory)]
+            elif isinstance(f.default, ast.Constant) and not isinstance(f.default.value, (float, complex)):
+                out[f.name] = u(f.default)
+        return out
+
+    def sink_record_tail(self, stmts, module):
+        """if ..: ..; x = _Rec(a, b)  elif ..: ..; x = _Rec(c)  ..        if ..: ..; return F(a, b, <default>)  elif ..: ..; return F(c, ..)
+           return F(x.p, x.q, x.r)                                  ->
+        every arm files the varying parts in a private record (a dataclass the tables do not know) and one shared tail builds the answer
+        from them: the tail is written into each arm with the record's fields replaced by what the arm filed"""
+        known = known_defs()
+
+        def helper_fields(call):
+            if not (isinstance(call, ast.Call) and isinstance(call.func, ast.Name)):
+                return None
+            c = module.classes.get(call.func.id)
+            if c is None or not call.func.id.startswith("_") or f"class:{call.func.id}" in known or not c.is_dataclass \
+                    or any(n_ in c.methods for n_ in ("__init__", "__post_init__", "__new__", "__getattr__", "__setattr__", "__getattribute__")) \
+                    or any(isinstance(a, ast.Starred) for a in call.args) or any(k.arg is None for k in call.keywords):
+                return None
+            fields = [f for f in c.all_fields() if f.init and not f.classvar]
+            params = [f.name for f in fields]
+            if len(call.args) > len(params) or any(k.arg not in params for k in call.keywords):
+                return None
+            vals = dict(zip(params, call.args))
+            vals.update({k.arg: k.value for k in call.keywords})
+            for f in fields:
+                if f.name in vals:
+                    continue
+                if f.default_factory is not None and u(f.default_factory) in ("list", "dict", "set"):
+                    vals[f.name] = ast.parse({"list": "[]", "dict": "{}", "set": "set()"}[u(f.default_factory)], mode="eval").body
+                elif isinstance(f.default, ast.Constant):
+                    vals[f.name] = copy.deepcopy(f.default)
+                else:
+                    return None
+            # (one part may be computed by a call: with everything else pure, where in the tail it is evaluated makes no difference)
+            if sum(1 for v in vals.values() if not norm.is_pure(v, _PURE_EXT)) > 1:
+                return None
+            return vals
+
+        class Fold(ast.NodeTransformer):
+            def visit_IfExp(self, node):
+                self.generic_visit(node)
+                if isinstance(node.test, ast.Constant) and isinstance(node.test.value, bool):
+                    return node.body if node.test.value else node.orelse
+                return node
+
+        def block(b):
+            b = list(b)
+            for s_ in b:
+                for fld in ("body", "orelse", "finalbody"):
+                    bb = getattr(s_, fld, None)
+                    if isinstance(bb, list) and bb and isinstance(bb[0], ast.stmt) and not isinstance(s_, (ast.FunctionDef, ast.AsyncFunctionDef, ast.ClassDef)):
+                        setattr(s_, fld, block(bb))
+            for i in range(len(b) - 1):
+                s1, tail = b[i], b[i + 1:]
+                if not (isinstance(s1, ast.If) and s1.orelse and len(tail) == 1 and isinstance(tail[0], ast.Return) and tail[0].value is not None):
+                    continue
+                recs = {n.value.id for n in ast.walk(tail[0]) if isinstance(n, ast.Attribute) and isinstance(n.value, ast.Name)}
+                for x in sorted(recs):
+                    reads = [n for n in ast.walk(tail[0]) if isinstance(n, ast.Name) and n.id == x]
+                    attr_bases = {id(n.value) for n in ast.walk(tail[0]) if isinstance(n, ast.Attribute)}
+                    if any(id(n) not in attr_bases or not isinstance(n.ctx, ast.Load) for n in reads):
+                        continue
+                    if any(isinstance(n, ast.Name) and n.id == x for b_ in b[:i] for n in ast.walk(b_)):
+                        continue
+                    leaves = []
+
+                    def collect(blk):
+                        if not blk:
+                            return False
+                        if _terminates(blk):
+                            return True
+                        last = blk[-1]
+                        if isinstance(last, ast.If) and last.orelse:
+                            return collect(last.body) and collect(last.orelse)
+                        if isinstance(last, ast.Assign) and len(last.targets) == 1 and isinstance(last.targets[0], ast.Name) and last.targets[0].id == x \
+                                and helper_fields(last.value) is not None:
+                            leaves.append((blk, helper_fields(last.value)))
+                            return True
+                        return False
+                    if not (collect(s1.body) and collect(s1.orelse)) or not leaves:
+                        continue
+                    # x is written only by those last assignments and read only by the tail
+                    uses = sum(1 for n in ast.walk(s1) if isinstance(n, ast.Name) and n.id == x)
+                    if uses != len(leaves):
+                        continue
+                    counts = {}
+                    for n in ast.walk(tail[0]):
+                        if isinstance(n, ast.Attribute) and isinstance(n.value, ast.Name) and n.value.id == x:
+                            counts[n.attr] = counts.get(n.attr, 0) + 1
+                    ok = True
+
+                    class Blank(ast.NodeTransformer):
+                        def visit_Attribute(self, node):
+                            if isinstance(node.value, ast.Name) and node.value.id == x:
+                                return ast.Constant(None)
+                            return self.generic_visit(node)
+                    tail_pure = norm.is_pure(Blank().visit(copy.deepcopy(tail[0].value)), _PURE_EXT)
+                    for blk, vals in leaves:
+                        for f_, v_ in vals.items():
+                            if not norm.is_pure(v_, _PURE_EXT) and not (counts.get(f_, 0) == 1 and tail_pure):
+                                ok = False
+                        for f_, k_ in counts.items():
+                            if f_ not in vals or (k_ > 1 and not (isinstance(vals[f_], ast.Constant) or norm.is_reference(vals[f_]) or norm.is_scalar(vals[f_]))):
+                                ok = False
+                    if not ok:
+                        continue
+                    for blk, vals in leaves:
+                        class P(ast.NodeTransformer):
+                            def visit_Attribute(self, node):
+                                if isinstance(node.value, ast.Name) and node.value.id == x:
+                                    return copy.deepcopy(vals[node.attr])
+                                return self.generic_visit(node)
+                        blk[-1] = ast.fix_missing_locations(ast.copy_location(Fold().visit(P().visit(copy.deepcopy(tail[0]))), blk[-1]))
+                    return block(b[:i + 1])
+            return b
+        return block(stmts)
+
     def call_layout(self, stmts, module, cls):
         """keyword arguments -> positional for the longest prefix of the callee's parameters (when the callee is known)"""
         canon = self
@@ -3327,6 +3478,13 @@ class Canon:
                 if any(k not in pos and k not in kwonly for k in kws):
                     return node
                 args = list(node.args)
+                dflt = canon._ctor_defaults(node, module)
+                if dflt:
+                    # an argument spelled out with the value the (dataclass) constructor would supply anyway is left to it
+                    full = dict(zip(pos, args))
+                    full.update(kws)
+                    full = {k: v for k, v in full.items() if not (k in dflt and u(v) == dflt[k])}
+                    args, kws = [], dict(full)
                 for p_ in pos[len(args):]:
                     if p_ in kws:
                         args.append(kws.pop(p_))
@@ -3385,6 +3543,7 @@ class Canon:
         b = self._inline_class_constants(b, cls)
         b = self._fold_constant_lengths(b, module, fn)
         b = norm.merge_display_building(b)
+        b = self.sink_record_tail(b, module)
         b = self._project_helper_objects(b, module)
         b = self._project_records_multi(b, module)
         from .iterlow import lower_iter_pipelines, rotate_loops
